@@ -59,6 +59,8 @@ class SupvisorsTimes:
         # approximate startup monotonic time of the remote Supvisors instance (in the local monotonic time reference)
         # will be used to display the remote Supvisors instance uptime
         self.start_local_mtime: float = -1.0
+        # set when a stealth restart of the remote Supvisors instance has been detected, until it is invalidated
+        self.stealth_restart: bool = False
 
     @property
     def capped_remote_time(self) -> int:
@@ -114,6 +116,11 @@ class SupvisorsTimes:
             # The Supvisors periodical check will handle the node invalidation
             local_sequence_counter = 0
             self.start_local_mtime = -1
+            self.stealth_restart = True
+        elif self.stealth_restart:
+            # NOTE: the next TICK of the restarted Supvisors instance may be received before the periodic check,
+            #       so the inactivity is forced until the Supvisors instance has been invalidated
+            local_sequence_counter = 0
         # update remote attributes
         self.remote_sequence_counter = remote_sequence_counter
         self.remote_mtime = remote_mtime
@@ -205,6 +212,9 @@ class SupvisorsInstanceStatus:
             # mark the entry in CHECKING state
             if new_state == SupvisorsInstanceStates.CHECKING:
                 self.checking_time = time.monotonic()
+            # a stealth restart has been dealt with when the Supvisors instance is not active anymore
+            if not self.has_active_state():
+                self.times.stealth_restart = False
 
     @property
     def running(self) -> bool:
